@@ -294,6 +294,16 @@ type scopeT struct {
 	Z any
 }
 
+// scopeInner/scopeOuter: a string-tagged field promoted through an embedded pointer to an unexported struct
+// type cannot be allocated by Unmarshal (documented error); the error exit must not leave field-scoped flags behind.
+type scopeInner struct {
+	S int `json:",string"`
+}
+type scopeOuter struct {
+	A int `json:"a"`
+	*scopeInner
+}
+
 // scopeF additionally has a format-tagged field (only usable with ExperimentalSupportFormatTag).
 type scopeF struct {
 	A int    `json:"a"`
@@ -315,7 +325,7 @@ func scoping(r *evid.Run, ks []key) {
 	extraSets := [][]jsonv2.Options{nil, {jsonv2.StringifyNumbers(true)}, {jsonv2.RejectUnknownMembers(true), jsonv2.MatchCaseInsensitiveNames(true)}, {jsonv2.FormatNilSliceAsNull(true), jsonv2.OmitZeroStructFields(true)}, {jsonv2.WithMarshalers(mA), jsonv2.WithUnmarshalers(uA)}, {jsonv2.ExperimentalSupportFormatTag(true)}}
 	// decode side: documents with an error at every stage (string-tagged fields, nested, format-tagged, unknown members, syntax)
 	docs := []string{
-		`{"a":1}`, `{"S":"12","F":"1.5"}`, `{"S":"x"}`, `{"S":12}`, `{"F":"1e999"}`, `{"a":"no"}`, `{"M":{"k":{"S":"bad"}}}`, `{"L":[{"a":1},{"S":"bad"}]}`, `{"M":{"k":{"a":1}},"a":true}`,
+		`{"a":1}`, `{"S":"12","F":"1.5"}`, `{"a":1,"S":"1"}`, `{"S":"x"}`, `{"S":12}`, `{"F":"1e999"}`, `{"a":"no"}`, `{"M":{"k":{"S":"bad"}}}`, `{"L":[{"a":1},{"S":"bad"}]}`, `{"M":{"k":{"a":1}},"a":true}`,
 		`{"B":"zz"}`, `{"B":"00ff"}`, `{"unknown":{"deep":[1,2,{"x":null}]}}`, `{"a":1,"a":2}`, `{"a":1`, `{"Z":{"k":[1,{"j":"v"}]},"S":"3","a":[]}`, `[1]`,
 	}
 	var n, nOK, nErr int64
@@ -330,6 +340,9 @@ func scoping(r *evid.Run, ks []key) {
 				var target any = &t
 				if ei == 5 {
 					target = &tf
+				}
+				if strings.Contains(doc, `"S":"1"`) && ei%2 == 0 {
+					target = new(scopeOuter)
 				}
 				err := jsonv2.UnmarshalDecode(dec, target, extra...)
 				if err != nil {
